@@ -59,7 +59,7 @@ type StmtObs struct {
 	Panic                              *PanicInfo
 	StepLimit                          bool
 	Hang                               string // front-end progress bound tripped
-	Steps                              int
+	Steps, Forks                       int
 	LastIP                             int
 	LastInstr                          bytecode.Type
 	LastDepth                          int
@@ -79,6 +79,8 @@ type Session struct {
 	Dead bool // a panic left the machine in an undefined state
 	// StepLimit is the VM step limit per statement (0 = none).
 	StepLimit int
+	// ForkLimit bounds the iterator contexts one statement may fork (0 = none); exceeding it is reported as StepLimit.
+	ForkLimit int
 }
 
 func NewSession() *Session {
@@ -271,9 +273,11 @@ func (s *Session) ExecNode(n node.Type, doOut bool) (o StmtObs) {
 	o.LastIP = -1
 	vm.VerifReset()
 	vm.VerifMon.StepLimit = s.StepLimit
+	vm.VerifMon.ForkLimit = s.ForkLimit
 	memory.VerifCnt = memory.VerifCounters{}
 	finish := func() {
 		o.Steps = vm.VerifMon.Steps
+		o.Forks = vm.VerifMon.Forks
 		o.LastIP = vm.VerifMon.LastIP
 		o.LastInstr = vm.VerifMon.LastInstr
 		o.LastDepth = vm.VerifMon.LastCtxDepth
@@ -281,6 +285,7 @@ func (s *Session) ExecNode(n node.Type, doOut bool) (o StmtObs) {
 		o.BackEdges, o.MaxCtxBackEdge = vm.VerifMon.BackEdges, vm.VerifMon.MaxCtxAtBackEdge
 		o.Grow, o.CloneNew, o.CloneReuse = memory.VerifCnt.Grow, memory.VerifCnt.CloneNew, memory.VerifCnt.CloneReuse
 		vm.VerifMon.StepLimit = 0
+		vm.VerifMon.ForkLimit = 0
 	}
 	var v value.Type
 	var err error
